@@ -19,12 +19,15 @@ PROP = 'C16'
 _CNT = [0]
 
 
-def build(t0, t1, dp, l02, l102, l12, att):
+CSV = [None, (1, 3, 3, 3), (2, 2, 3, 0)]
+
+
+def build(t0, t1, dp, l02, l102, l12, att, cs=0):
     from maltoolbox.model import AttackerAttachment
-    spec = langs.L_INH()
+    spec = langs.L_INH(CSV[cs])
     lg, lcf = langs.build_lang(spec)
     types = [T0[t0], T1[t1], 'O']
-    m, assets = mb.build_model(lcf, types, names=['first', 'second one', 'o:3'])
+    m, assets = mb.build_model(lcf, types, names=['first', 'second one', 'o:3'], ids=[2, 10, 7])
     if DV[dp] is not None:
         assets[0].dP = DV[dp]
     if l02:
@@ -55,6 +58,7 @@ def full_graph(lg, m):
 
 def body_inproc(cube, **kw):
     c = (idx(kw['t0'], 3), idx(kw['t1'], 3), idx(kw['dp'], 4), int(bool(kw['l02'])), int(bool(kw['l102'])), int(bool(kw['l12'])), int(bool(kw['att'])))
+    c = c + ((idx(kw['cs'], len(CSV)) if 'cs' in kw else 0),)
     via = idx(kw['via'], 3)      # 0: direct API twice, 1: wrapper with .mar, 2: wrapper with .mal
     with notrace(), reclimit():
         spec, lg, lcf, m, assets = build(*c)
@@ -139,13 +143,13 @@ def body_seeds(cube, **kw):
 
 
 def queries(tier):
-    ps = [I('t0', 0, 2), I('t1', 0, 2), I('dp', 0, 3), B('l02'), B('l102'), B('l12'), B('att'), I('via', 0, 2)]
-    pre = ['via == 0 or (dp <= 1 and l102)'] if tier == 'quick' else []
+    ps = [I('t0', 0, 2), I('t1', 0, 2), I('dp', 0, 3), B('l02'), B('l102'), B('l12'), B('att'), I('via', 0, 2), I('cs', 0, len(CSV) - 1)]
+    pre = ['via == 0 or (dp <= 1 and l102)', 'cs == 0 or (dp == 0 and l02 and l12)'] if tier == 'quick' else ['cs == 0 or dp <= 1']
     qs = [Query(name='inproc', body=body_inproc, params=ps, split=['t0', 'via'], pre=pre, timeout=600 if tier == 'quick' else 1700,
-                witnesses=[({}, {'t0': 1, 't1': 0, 'dp': 2, 'l02': True, 'l102': True, 'l12': True, 'att': True, 'via': 0}),
-                           ({}, {'t0': 0, 't1': 2, 'dp': 0, 'l02': True, 'l102': True, 'l12': False, 'att': True, 'via': 1}),
-                           ({}, {'t0': 2, 't1': 1, 'dp': 1, 'l02': False, 'l102': True, 'l12': True, 'att': False, 'via': 2})],
-                bound='3-asset L_INH models (the C02 bound: type, defense and link picks, model attacker on/off): generate + attach + analyse twice; '
+                witnesses=[({}, {'t0': 1, 't1': 0, 'dp': 2, 'l02': True, 'l102': True, 'l12': True, 'att': True, 'via': 0, 'cs': 0}),
+                           ({}, {'t0': 0, 't1': 2, 'dp': 0, 'l02': True, 'l102': True, 'l12': False, 'att': True, 'via': 1, 'cs': 1}),
+                           ({}, {'t0': 2, 't1': 1, 'dp': 1, 'l02': False, 'l102': True, 'l12': True, 'att': False, 'via': 2, 'cs': 2})],
+                bound='3-asset L_INH models with asset ids 2, 10, 7 (the C02 bound: type, defense and link picks, model attacker on/off; 3 redefinition variants of step s): generate + attach + analyse twice; '
                       'model, language specification and first graph unchanged, no shared node; create_attack_graph from a .mar + json and from a .mal + yml '
                       'file pair equals the direct API')]
     seeds = [0, 1, 12345] if tier == 'quick' else [0, 1, 2, 12345, 4294967295]
